@@ -54,6 +54,8 @@ def gen_pair(rng, thorough):
     rkeynames = keynames if same_names else ['r' + k for k in keynames]
     lh = list(keynames) + lextra
     rh = list(rkeynames) + rextra
+    if not same_names and rng.random() < 0.4:
+        rh.append(rng.choice(keynames))      # a right field that is not a key but is named like a left key field (self joins: id = boss)
     # shuffle field positions so that key columns sit at different places
     lperm = list(range(len(lh))); rng.shuffle(lperm)
     rperm = list(range(len(rh))); rng.shuffle(rperm)
